@@ -124,8 +124,8 @@ _vbi_pfc_demux_decode		(vbi_pfc_demux *	dx,
 				int sh; /* structure header */
 
 				sh = vbi_unham16p (dx->block.block)
-					+ vbi_unham16p (dx->block.block + 2)
-					* 256;
+					| (vbi_unham16p (dx->block.block + 2)
+					   * 256);
 
 				if (sh < 0) {
 					/* Hamming error. */
@@ -258,7 +258,7 @@ vbi_pfc_demux_feed		(vbi_pfc_demux *	dx,
 		}
 
 		subno = vbi_unham16p (buffer + 4)
-			+ vbi_unham16p (buffer + 6) * 256;
+			| (vbi_unham16p (buffer + 6) * 256);
 		if (subno < 0)
 			goto desynced;
 
